@@ -250,6 +250,14 @@ func vxSkeleton(s int) (ast.Clause, []ast.Atom) {
 			c.Premises = append(c.Premises, vxA("p", v))
 		}
 		return c, p1
+	case 12: // aggregation over a two-premise body with a wildcard inside an equality (hidden helper relation)
+		c := ast.Clause{Head: vxA("h", "S", "N")}
+		c.Premises = vxPermute([]ast.Term{vxA("pp", "S", "V"), vxA("p", "S"), ast.Eq{Left: vxVar("_"), Right: vxFn(symbols.Plus, "V", n(1))}})
+		lv := vxVar("N")
+		c.Transform = &ast.Transform{Statements: []ast.TransformStmt{
+			{Var: nil, Fn: vxFn(symbols.GroupBy, "S")},
+			{Var: &lv, Fn: vxFn(symbols.Sum, "V")}}}
+		return c, append(p1, vxA("pp", 1, 2), vxA("pp", 1, 5), vxA("pp", 2, 3))
 	}
 	panic("skeleton")
 }
@@ -360,6 +368,16 @@ func VxC04Safety() {
 	}
 	err = EvalProgram(pi, store)
 	vxAssert(err == nil, "accepted-clause-evaluates-without-error")
+	// only ground facts are stored, in every relation of the store (hidden helper relations included)
+	for _, sym := range store.ListPredicates() {
+		store.GetFacts(ast.NewQuery(sym), func(a ast.Atom) error {
+			for _, arg := range a.Args {
+				_, isConst := arg.(ast.Constant)
+				vxAssert(isConst, "store-holds-only-ground-facts")
+			}
+			return nil
+		})
+	}
 	unsafe, conv := ref.vxRefEval([]ast.Clause{c}, 10)
 	vxAssert(!unsafe && conv, "reference-evaluates")
 	if ref.err != nil {
